@@ -24,12 +24,14 @@ pub enum Input<'a> {
 
 bitflags! {
     #[derive(Debug)]
+    #[cfg_attr(feature = "verif-hooks", derive(Clone))]
     struct Flags: u8 {
         const CSI_STARTED = 1;
     }
 }
 
 #[derive(Debug)]
+#[cfg_attr(feature = "verif-hooks", derive(Clone))]
 pub struct InputGenerator {
     flags: Flags,
     last_byte: u8,
@@ -94,6 +96,14 @@ impl InputGenerator {
             _ => return None,
         };
         Some(Input::Control(control))
+    }
+}
+
+#[cfg(feature = "verif-hooks")]
+impl InputGenerator {
+    /// (flag bits, last_byte, utf8 accumulator state)
+    pub fn __verif_state(&self) -> (u8, u8, ([u8; 4], u8, u8)) {
+        (self.flags.bits(), self.last_byte, self.utf8.__verif_state())
     }
 }
 
